@@ -271,6 +271,29 @@ def range_checker_widths(g):
                             op = x["op"] if side == "r" else {"<=": ">=", "<": ">", ">": "<", ">=": "<="}[x["op"]]
                             lim = v if op in ("<=", ">") else v - 1
                             out[w] = lim
+    # the same test with the limits looked up first: `let max = match w { 2 => u16::MAX as usize, 1 => .. }; if x > max ..`
+    for st in H.walk(b):
+        if st.get("k") != "let" or st.get("pat", {}).get("k") != "bind" or st.get("init") is None:
+            continue
+        m = H.strip(st["init"])
+        if m.get("k") != "match" or H.is_try(m):
+            continue
+        table = {}
+        for a in m["arms"]:
+            if a["pat"].get("k") == "plit" and a["pat"]["lit"]["lk"] == "int":
+                v = const_val(a["body"])
+                if v is not None:
+                    table[a["pat"]["lit"]["v"]] = v
+        if not table:
+            continue
+        lid = st["pat"]["id"]
+        for x in H.walk(b):
+            if x.get("k") == "bin" and x["op"] in ("<=", "<", ">", ">="):
+                for side, other in (("r", "l"), ("l", "r")):
+                    if H.local_id(H.strip(x[side])) == lid and H.local_id(H.strip(x[other])) != lid:
+                        op = x["op"] if side == "r" else {"<=": ">=", "<": ">", ">": "<", ">=": "<="}[x["op"]]
+                        for w, v in table.items():
+                            out.setdefault(w, v if op in ("<=", ">") else v - 1)
     return out
 
 
